@@ -18,7 +18,7 @@ from . import fitsim, stepsim
 
 PROPERTY = "C19"
 TIERS = {
-    "quick": {"runs": 640, "budget_s": 110, "chunk": 8},
+    "quick": {"runs": 2000, "budget_s": 110, "chunk": 8},
     "thorough": {"runs": 20000, "budget_s": 900, "chunk": 16},
 }
 REQUIRED_PROBES = {
